@@ -520,3 +520,29 @@ def eval_walk(node, state, visit, join):
             s = ev(c, s)
         return visit(n, s)
     return ev(node, state)
+
+
+def refine_bool(test, state, atom, join):
+    """Path-sensitive refinement through not/and/or.  atom(expr, polarity, state) -> refined state or None
+    (None = this arm is infeasible).  Returns (state_if_true, state_if_false)."""
+    if state is None:
+        return None, None
+    if isinstance(test, ast.UnaryOp) and isinstance(test.op, ast.Not):
+        t, f = refine_bool(test.operand, state, atom, join)
+        return f, t
+    if isinstance(test, ast.BoolOp):
+        is_and = isinstance(test.op, ast.And)
+        cur = state          # state in which the next operand is evaluated
+        short = None         # join of the short-circuit exits
+        for v in test.values:
+            t, f = refine_bool(v, cur, atom, join)
+            if is_and:
+                short = f if short is None else (short if f is None else join(short, f))
+                cur = t
+            else:
+                short = t if short is None else (short if t is None else join(short, t))
+                cur = f
+            if cur is None:
+                break
+        return (cur, short) if is_and else (short, cur)
+    return atom(test, True, state), atom(test, False, state)
